@@ -102,6 +102,11 @@ func runCase(t *testing.T, c *hcase, idx, kind int, tagged bool, res *vh.Result)
 		}
 	}()
 	synctest.Test(t, func(t *testing.T) {
+		defer func() {
+			if x := recover(); x != nil {
+				fail("Panic", fmt.Sprintf("panic: %v", x), -1)
+			}
+		}()
 		root := newStatser(kind)
 		view := root
 		if tagged {
@@ -149,12 +154,17 @@ func runCase(t *testing.T, c *hcase, idx, kind int, tagged bool, res *vh.Result)
 				var done atomic.Bool
 				d := time.Duration(s.D) * time.Second
 				go func() {
+					defer done.Store(true)
+					defer func() { // a panic in the flusher's goroutine is the verdict, not the end of the run
+						if x := recover(); x != nil {
+							fail("NoSendOnClosed", fmt.Sprintf("NotifyFlush panicked: %v", x), at)
+						}
+					}()
 					if s.D%2 == 0 {
 						view.NotifyFlush(ctx, d)
 					} else {
 						root.NotifyFlush(ctx, d)
 					}
-					done.Store(true)
 				}()
 				synctest.Wait()
 				if !done.Load() {
@@ -209,7 +219,14 @@ func runCase(t *testing.T, c *hcase, idx, kind int, tagged bool, res *vh.Result)
 			}()
 		}
 		synctest.Wait()
-		root.NotifyFlush(ctx, 77*time.Second)
+		func() {
+			defer func() {
+				if x := recover(); x != nil {
+					fail("NoSendOnClosed", fmt.Sprintf("NotifyFlush panicked: %v", x), len(c.Hist))
+				}
+			}()
+			root.NotifyFlush(ctx, 77*time.Second)
+		}()
 		want := map[int]obs{}
 		for _, id := range ids {
 			want[id] = obs{77 * time.Second, true}
